@@ -313,6 +313,25 @@ class World:
         self.cells[ident] = c
         return c
 
+    def cell_totals(self, truth):
+        """per row: {column: summed true count of all universe identities owning that
+        counter}; identities whose ownership could not be learned count towards every cell
+        (only weakens upper bounds / lower bounds, never unsound). Linear in the universe."""
+        depth = self.cfg["depth"]
+        rows = [dict() for _ in range(depth)]
+        wild = 0
+        for ident, t in truth.items():
+            if not t:
+                continue
+            cells = self.owner_cells(ident)
+            if cells is False:
+                wild += t
+                continue
+            for r in range(depth):
+                c = cells[r]
+                rows[r][c] = rows[r].get(c, 0) + t
+        return rows, wild
+
     def sharers(self, ident):
         """per row: list of universe identities that may share ident's counter"""
         mine = self.owner_cells(ident)
